@@ -257,6 +257,31 @@ func runC04(p *Prog, r *Report) {
 		r.Fail("C04.R3", sv+": release registered with defer", p.FuncPos(c.serve),
 			"the routine that decrements the per-source counter ("+FName(c.release)+") is not registered with defer in ServeHTTP: a panicking handler keeps its slot forever")
 	}
+	// every request is counted: the wrapped handler is invoked only on the success edge of the acquire routine
+	// (a pass-through in front of it — "already counted", "not worth counting" — lets a source exceed its limit)
+	{
+		nNext := 0
+		for _, cl := range Calls(c.serve) {
+			cc, ok := isHandlerServe(cl)
+			if !ok || !valueFromFieldOfType(cc.Value, c.typ) {
+				continue
+			}
+			nNext++
+			okA := false
+			if call := c.acquireCal; call != nil {
+				ei := errorResultIndex(call.Common().Signature())
+				for _, t := range NilTests(c.serve, resultValue(call, ei)) {
+					if OnlyViaEdge(c.serve, cl, t.Nil) {
+						okA = true
+					}
+				}
+			}
+			r.Paths++
+			r.Check(okA, "C04.R2", fmt.Sprintf("%s: wrapped handler call #%d only after a successful acquire", sv, nNext), p.InstrPos(cl), "reachable only on the err == nil edge of the acquire routine",
+				"the wrapped handler can be invoked without the request having been counted: such requests are not limited at all and a source exceeds its maximum")
+		}
+		r.Floor("C04.R2", nNext, 1, "invocations of the wrapped handler in ServeHTTP")
+	}
 	// writers of the map: only acquire and release
 	for _, fn := range p.ModuleFuncs() {
 		for _, b := range fn.Blocks {
@@ -664,6 +689,7 @@ func zeroCountCmp(c LinCmp, post bool) bool {
 func mutantsC04() []Mutant {
 	f := "connlimit/connlimit.go"
 	return []Mutant{
+		{Name: "options-requests-bypass-the-limiter", File: "connlimit/connlimit.go", Old: "\ttoken, amount, err := cl.extract.Extract(r)\n", New: "\tif r.Method == http.MethodOptions {\n\t\tcl.next.ServeHTTP(w, r)\n\t\treturn\n\t}\n\ttoken, amount, err := cl.extract.Extract(r)\n", Expect: "C04.R2"},
 		{Name: "undefer-release", File: f, Old: "\tdefer cl.release(token, amount)\n\n\tcl.next.ServeHTTP(w, r)\n", New: "\tcl.next.ServeHTTP(w, r)\n\tcl.release(token, amount)\n", Expect: "C04.R3"},
 		{Name: "ge-to-gt", File: f, Old: "if connections >= cl.maxConnections {", New: "if connections > cl.maxConnections {", Expect: "C04.R4"},
 		{Name: "release-before-check", File: f, Old: "\tif err := cl.acquire(token, amount); err != nil {", New: "\tdefer cl.release(token, amount)\n\tif err := cl.acquire(token, amount); err != nil {", Expect: "C04.R3"},
